@@ -300,4 +300,71 @@ theorem c03_client_half_trailers : ∀ (ss : List SentReq), (∀ s ∈ ss, s.Wf)
         cases h : s.enc <;> simp_all
       simp only [List.map_cons, List.flatten_cons, parseAll, hne, Bool.false_eq_true, if_false, if_true, h1, ih]
 
+/-! ### a whole server half in which some responses travel with trailer fields -/
+
+structure SentResp where
+  m : Msg
+  tr : Option (List (Bytes × Bytes))
+
+def SentResp.enc (s : SentResp) : Bytes :=
+  match s.tr with
+  | none => encMsgCore s.m
+  | some tr => encRespT s.m tr
+
+def SentResp.parsed (s : SentResp) : Message :=
+  match s.tr with
+  | none => parsedOf s.m
+  | some tr => { (parsedOf s.m) with headers := (parsedOf s.m).headers ++ tr }
+
+/-- well-formed, delimited by length or chunks (a body delimited by the end of the stream can only be the last) -/
+def SentResp.Wf (s : SentResp) : Prop :=
+  (∀ rest, WfResp s.m rest) ∧ s.m.framing ≠ .close ∧ match s.tr with
+    | none => True
+    | some tr => s.m.framing = .chunked ∧ noBodyStatus s.m.status = false ∧ ∀ h ∈ tr, wfHeader h
+
+theorem SentResp.enc_read (s : SentResp) (hw : s.Wf) (rest : Bytes) :
+    parseResponse (s.enc ++ rest) = some (s.parsed, rest) := by
+  obtain ⟨m, tr⟩ := s
+  cases tr with
+  | none =>
+    have h1 := c03_response_enc m rest (hw.1 rest)
+    have hc : m.framing ≠ .close := hw.2.1
+    simp only [hc, if_false] at h1
+    exact h1
+  | some tr => exact c03_response_trailers_enc m rest (hw.1 rest) hw.2.2.1 hw.2.2.2.1 tr hw.2.2.2.2
+
+theorem SentResp.enc_ne_nil (s : SentResp) : s.enc.isEmpty = false := by
+  obtain ⟨m, tr⟩ := s
+  cases tr with
+  | none => exact encMsg_ne_nil m
+  | some tr => simp [SentResp.enc, encRespT]
+
+/-- **A whole server half with trailer fields**: read back response by response, each with its own trailer fields
+    among its header fields. -/
+theorem c03_server_half_trailers : ∀ (ss : List SentResp), (∀ s ∈ ss, s.Wf) → ∀ fuel, ss.length < fuel →
+    parseAll false fuel ((ss.map SentResp.enc).flatten) = ss.map SentResp.parsed
+  | [], _, fuel, hf => by
+    cases fuel with
+    | zero => omega
+    | succ f => simp [parseAll]
+  | s :: ss, hw, fuel, hf => by
+    cases fuel with
+    | zero => omega
+    | succ f =>
+      have h1 := SentResp.enc_read s (hw s (by simp)) ((ss.map SentResp.enc).flatten)
+      have ih := c03_server_half_trailers ss (fun x hx => hw x (by simp [hx])) f (by simp only [List.length_cons] at hf; omega)
+      have hne : (s.enc ++ (ss.map SentResp.enc).flatten).isEmpty = false := by
+        have := SentResp.enc_ne_nil s
+        cases h : s.enc <;> simp_all
+      simp only [List.map_cons, List.flatten_cons, parseAll, hne, Bool.false_eq_true, if_false, h1, ih]
+
+/-- **A whole conversation with trailer fields**: the items paired from the two halves (k-th request with k-th
+    response) are exactly the exchanges sent, every message with its own trailer fields among its header fields. -/
+theorem c03_conversation_trailers (qs : List SentReq) (rs : List SentResp)
+    (hq : ∀ s ∈ qs, s.Wf) (hr : ∀ s ∈ rs, s.Wf) :
+    (parseAll true (qs.length + 1) ((qs.map SentReq.enc).flatten)).zip
+      (parseAll false (rs.length + 1) ((rs.map SentResp.enc).flatten)) =
+    (qs.map SentReq.parsed).zip (rs.map SentResp.parsed) := by
+  rw [c03_client_half_trailers qs hq _ (by omega), c03_server_half_trailers rs hr _ (by omega)]
+
 end KsVerif.Proofs.C03Trailer
